@@ -28,6 +28,18 @@ Lemma step_clears_fault w sender target m funds :
   w_fault (fst (step w (Tx sender target m funds))) = None.
 Proof. cbn [step]. destruct (run_tx w sender target m funds); reflexivity. Qed.
 
+(* ---------- typed dispatch ---------- *)
+Lemma handle_ok_typed w t sd f m r :
+  handle w t sd f m = Ok r -> handle_typed w t sd f m = Ok r /\ coins_ok f = true /\ wmsg_ok m = true.
+Proof.
+  unfold handle. destruct (coins_ok f && wmsg_ok m) eqn:E; [|discriminate].
+  apply andb_true_iff in E. destruct E. auto.
+Qed.
+
+Lemma handle_err_of_typed w t sd f m :
+  (exists e, handle_typed w t sd f m = Err e) -> exists e, handle w t sd f m = Err e.
+Proof. intros [e He]. unfold handle. destruct (coins_ok f && wmsg_ok m); [rewrite He|]; eauto. Qed.
+
 (* ---------- leaf messages only touch the bank (and the fault counter) ---------- *)
 Definition same_contracts (w w' : world) : Prop :=
   w_block w' = w_block w /\ w_tf_fee w' = w_tf_fee w /\ w_valid w' = w_valid w /\ w_em w' = w_em w /\
